@@ -2,7 +2,7 @@
 from . import shared as S
 
 META = {
-    'claim_added': "Also decided: every return of get_single_node goes through __process_node (an empty document is type checked as null); what PyYAML constructed is re-checked element by element (__type_matches as a complete recursion) on every path to __init__; Node.get_attribute answers only for exactly one matching key; recognition and signature introspection write no state; requiredness is 'position in the full argument list < len(args) - len(defaults)'; abstract classes and foreign tags are rejected (R03.1/4/6). Round 3: nothing writes the composed tree before __process_node (merge-key expansion, key normalisation) and the cycle check comes first (R01.10); no constructor is registered after the user's classes (R01.9); the class arm processes every present attribute whatever its type.",
+    'claim_added': "Also decided: every return of get_single_node goes through __process_node (an empty document is type checked as null); what PyYAML constructed is re-checked element by element (__type_matches as a complete recursion) on every path to __init__; Node.get_attribute answers only for exactly one matching key; recognition and signature introspection write no state; requiredness is 'position in the full argument list < len(args) - len(defaults)'; abstract classes and foreign tags are rejected (R03.1/4/6). Round 3: nothing writes the composed tree before __process_node (merge-key expansion, key normalisation) and the cycle check comes first (R01.10); no constructor is registered after the user's classes (R01.9); the class arm processes every present attribute whatever its type. Round 6: R01.15 - __process_node writes the node object it was handed, per reference (known finding F19b: `&a foo: *a` as Dict[str, Path] yields a Path key). Round 6 (E14): caches on the code this property is about are invisible - no value that lives in a memo cell (dict / lazily filled attribute / lru_cache) is modified by the code it is handed to, the key of a cell contains every input its value depends on, no mutable parameter default is modified or handed out; given that, the program is analysed as if every lookup missed.",
     'level': 'other',
     'technique': 'static: CFG dominance / must-pass-through and guard evaluation over the abstract cardinality domain on '
                  'Loader.get_single_node, __process_node, __type_to_tag, Recognizer.__recognize_*; table agreement',
